@@ -15,7 +15,7 @@
     trees, no two variables for one leaf, all sources agreeing on the shape at
     every path, outside the shapes of the open findings C20-F3/C20-F4. *)
 From HV Require Import Base.Prelude C20.Model C20.Spec C20.Facts C20.MergeProofs C20.LoadProofs C20.Proofs.
-From HV Require Import C20.SchemaModel Gen.SchemaTables C20.SchemaProofs.
+From HV Require Import C20.SchemaModel Gen.SchemaTables C20.SchemaProofs C20.ScopeProofs.
 From Coq Require Import Permutation.
 Open Scope string_scope.
 
@@ -75,6 +75,21 @@ Theorem C20_merge_later_wins_no_panic :
               forall p, view p r = njoin (view p dest) (view p src).
 Proof. exact merge_with_view. Qed.
 Print Assumptions C20_merge_later_wins_no_panic.
+
+(** the evaluator's executable domain check (finitely many candidate paths) is
+    sound for the domain of the theorems (all paths) *)
+Theorem C20_in_scope_b_sound :
+  forall d f tenv, in_scope_b d f (Some tenv) = true -> in_scope d f tenv.
+Proof. exact in_scope_b_sound. Qed.
+Print Assumptions C20_in_scope_b_sound.
+
+(** the hypotheses of the theorems above are satisfiable by a load with
+    defaults, a file with a list hole, an overriding variable, a variable that
+    extends a list and one with a literal underscore *)
+Theorem C20_domain_nonvacuous :
+  exists tenv, domain (fun s => Leaf s) "P_" ex_d ex_f ex_env tenv /\ length tenv = 3.
+Proof. exact domain_nonvacuous. Qed.
+Print Assumptions C20_domain_nonvacuous.
 
 (** [schema_tbl] / [loader_tbl] are regenerated on every run from
     schema/config.schema.json and from the loader's type registries and config
